@@ -213,7 +213,7 @@ type c12FlowCase struct {
 	Consent  string `json:"consent,omitempty"` // "" = everything requested is granted | partial = only the first scope and the first audience
 }
 
-var c12Flows = []string{"code", "implicit", "hyb-idt", "hyb-tok", "hyb-all", "client_credentials", "password", "device", "par", "jwt-bearer", "jwt-bearer-key-without-scopes", "refresh"}
+var c12Flows = []string{"code", "implicit", "hyb-idt", "hyb-tok", "hyb-all", "client_credentials", "password", "device", "par", "jwt-bearer", "jwt-bearer-key-without-scopes", "refresh", "device-poll-smuggle", "code-redeem-smuggle"}
 var c12ScopeFamilies = []string{"a", "zzz", "a zzz", "a.x", "b", "b.c", "b.c.d", "*", "ab", "b.*", "a b.c", ""}
 var c12AudFamilies = []string{"", "https://api.example/a", "https://api.example/a/sub", "https://api.example/ab", "https://other.example", "http://api.example/a", "https://api.example/a https://other.example", "https://api.example", "https://api.example/a https://api.example/b", "https://api.example/b https://api.example/a/sub"}
 
@@ -351,6 +351,40 @@ func c12RunFlow(c c12FlowCase, res *WRes) {
 		if at := o.Str("access_token"); at != "" {
 			gotSomething = true
 			tokens = append(tokens, at, o.Str("refresh_token"))
+		}
+	case "device-poll-smuggle", "code-redeem-smuggle":
+		// nothing is requested (or granted) at the authorization leg; the case's scope and audience travel with the
+		// token request, and the integrator's token endpoint grants whatever the access request says was requested:
+		// the token request must not be able to request anything
+		scopeOK, audOK, dcAny = true, true, false
+		grantedScopes, grantedAud = nil, nil
+		tf := url.Values{}
+		if c.Flow == "device-poll-smuggle" {
+			o = w.DeviceAuth(url.Values{"client_id": {"C"}}, w.AuthFor("C"))
+			if o.Str("device_code") == "" {
+				break
+			}
+			w.AcceptUserCode(o.Str("user_code"), true)
+			tf = url.Values{"grant_type": {"urn:ietf:params:oauth:grant-type:device_code"}, "device_code": {o.Str("device_code")}}
+		} else {
+			o = w.Authorize(url.Values{"client_id": {"C"}, "redirect_uri": {"https://C.example/cb"}, "state": {"state-12345678"}, "response_type": {"code"}}, AuthzOpts{})
+			if o.Param("code") == "" {
+				break
+			}
+			tf = url.Values{"grant_type": {"authorization_code"}, "code": {o.Param("code")}, "redirect_uri": {"https://C.example/cb"}}
+		}
+		if scope != "" {
+			tf.Set("scope", scope)
+		}
+		if c.Audience != "" {
+			tf.Set("audience", c.Audience)
+		}
+		t := w.TokenWith(tf, w.AuthFor("C"), TokenOpts{GrantAll: true, GrantRequested: true})
+		if issued(t) {
+			gotSomething = true
+			tokens = append(tokens, t.Str("access_token"), t.Str("refresh_token"))
+		} else {
+			res.note("sanity:token-request-with-extra-parameters-refused:" + c.Flow + ":" + t.Class())
 		}
 	case "device":
 		f := url.Values{"client_id": {"C"}}
